@@ -211,11 +211,11 @@ theorem nodePath (h : DTree g P) {a b : Nat} (ha : a ∈ P.nodes) (hb : b ∈ P.
   · unfold T.nodePath
     simp only [h.dir, (h.nodes a).1 ha, (h.nodes b).1 hb, Bool.not_true, Bool.or_self, Bool.false_eq_true, if_false]
     rw [h.climb_std ha, h.climb_std hb]
-    simp only [hstrip, if_true, hia]
+    simp only [hstrip, hia, if_true]
   · unfold T.nodePath
     simp only [h.dir, (h.nodes a).1 ha, (h.nodes b).1 hb, Bool.not_true, Bool.or_self, Bool.false_eq_true, if_false]
     rw [h.climb_std ha, h.climb_std hb]
-    simp only [hstrip, if_false]
+    simp only [hstrip, hia, Bool.false_eq_true, if_false]
 
 end DTree
 end Bpp.Graph
